@@ -15,7 +15,7 @@ import subprocess
 import sys
 
 args = [a for a in sys.argv[1:] if not a.startswith("--")]
-STYLE = "refactor-bug" if "--refactor-bug" in sys.argv else "plain"
+STYLE = "refactor-bug" if "--refactor-bug" in sys.argv else ("far" if "--far" in sys.argv else "plain")
 base = args[0]
 only = set(args[1:])
 props = {}
@@ -87,6 +87,12 @@ for pid in claimed:
                       "extracted helper, a statement that ends up outside / inside a branch, an argument lost or swapped, a "
                       "comprehension that filters differently from the loop, an evaluation moved before / after a mutation, "
                       "a copy that is no longer made, ...); most of the diff must be genuinely behaviour-preserving")
+    if STYLE == "far":
+        style_text = ("each a small, realistic edit a developer could plausibly make, located AWAY from the most obvious "
+                      "function of the property: in a callee several calls down, a shared helper or utility module, a base "
+                      "class or a sibling subclass, a builtin-type table of one language, a default argument, a constant, a "
+                      "dunder method (__eq__/__hash__/__str__), a constructor, or a different module that the property's "
+                      "code depends on - so that someone reviewing only the functions named above would not see it")
     open("%s/prompt_c%s.txt" % (base, n), "w").write(T.format(style_text=style_text, 
         wt=wt, out=out, pid=pid, title=d["title"], statement=d["statement"], quant=d["quantifier"]["text"],
         files=", ".join(d["anchors"]["files"]), earlier="\n".join(earlier) or "  (none)"))
